@@ -278,11 +278,13 @@ def overlap_reader_cases(ctx, rng, n):
 
 
 def near_integer_small_counts(ctx, rng, n):
-    """a handful of windows, durations that miss a whole number of windows by 2e-8 windows (20x outside the 1e-9 rule)."""
+    """a handful of windows, durations that miss a whole number of windows by 1.2e-8 .. 5e-8 windows (12x-50x outside the 1e-9 rule),
+    with analysis windows from 0.5 ms to 100 ms."""
     for _ in range(n):
         k = rng.randint(2, 9)
-        w, rate = rng.choice(((0.01, 100), (0.02, 100), (0.05, 100), (0.1, 10)))
-        d = 2e-8
+        w, rate = rng.choice(((0.01, 100), (0.02, 100), (0.05, 100), (0.1, 10), (0.001, 1000), (0.001, 8000), (0.0005, 8000), (0.002, 1000)))
+        # short windows: an absolute slack on the DURATION (instead of on the number of windows) is many times 1e-9 windows there
+        d = rng.choice((1.2e-8, 2e-8, 5e-8)) if w < 0.005 else 2e-8
         which = rng.choice(("max_below", "min_above", "sil_below"))
         if which == "max_below":
             min_dur, max_dur, max_silence = w, (k - d) * w, 0          # k-1 windows allowed
